@@ -17,8 +17,9 @@ model checking (Mode "text", Budget 0): every well-formed text of <= 2 (thorough
            -> NoWarning / BlocksAsWritten.
 binding:   (a) every CASE line of TLC (class sequence + the block structure the specification's
                parser computed: which line is which block's header / change line / trailer) is
-               concretized k times by the grammar-driven generator of changelog_common (first
-               concretization canonical) and replayed: Changelog(text, strict=True) under
+               concretized by the grammar-driven generator of changelog_common (quick: 3 times, the
+               first one canonical; thorough: once, the canonical form is tried after a failure to
+               attribute it to structure or payload) and replayed: Changelog(text, strict=True) under
                warnings.simplefilter("error") returns; str(cl) == text; package, version,
                distributions, urgency, urgency_comment, other_pairs, changes(), author, date of every
                block equal what the generator wrote in the lines TLC assigned to the block;
@@ -80,15 +81,22 @@ def neg_control(ctx, bug, want):
     return r.violated
 
 
-def replay_case(ctx, rng, case, k, key):
+def replay_case(ctx, rng, case, k, key, canonical_first):
+    """k concretizations.  canonical_first: the first one is the canonical minimal form; otherwise the
+    canonical form is only tried after a failure, to attribute it to structure or to payload"""
     classes = case["t"]
     struct = case["doc"]
     nontrivial = len(struct["bl"]) > 0
     for j in range(k):
-        lines, contents = cc.conc_text(rng, classes, canonical=(j == 0), empty_blank=True)
+        canonical = canonical_first and j == 0
+        lines, contents = cc.conc_text(rng, classes, canonical=canonical, empty_blank=True)
         msg = cc.c04_check(lines, contents, struct)
         ctx.case_seen(key, nontrivial)
         if msg:
+            if not canonical:
+                cl, cc_ = cc.conc_text(rng, classes, canonical=True, empty_blank=True)
+                m2 = cc.c04_check(cl, cc_, struct)
+                msg += " [canonical concretization of the same structure: %s]" % ("fails too: " + m2 if m2 else "passes, so the payload matters")
             ctx.violation({"kind": "case", "classes": classes, "lines": lines, "contents": contents, "struct": struct}, msg)
             return False
     return True
@@ -101,7 +109,7 @@ def run(ctx):
         "exhaustive part: well-formed texts of <= %d blocks x <= 3 body lines, <= 2 leading / separating blank lines" % (2 if quick else 3),
         "lines never contain a str.splitlines() boundary character (DESIGN D1); versions valid per D2",
         "header metadata in the documented form: '; urgency=value[ comment][, key=value]*' (single spaces, no commas in values)",
-        "payload characters are sampled: k seeded concretizations per enumerated text, the first canonical",
+        "payload characters are sampled: %s" % ("3 seeded concretizations per enumerated text, the first canonical" if quick else "1 seeded concretization per enumerated text (280 000 texts)"),
         "trusted: TLC, the concretizer (states what it wrote), the independent line classifier, the projections",
     ]
     # (b) code -> spec: record first (the recorder does not depend on TLC)
@@ -129,10 +137,10 @@ def run(ctx):
                           "longest_text": max(len(c["t"]) for c in cases)}
 
     # (a) spec -> code
-    k = 3 if quick else 2
+    k = 3 if quick else 1
     n = 0
     for c in cases:
-        if not replay_case(ctx, rng, c, k, "case:" + "".join(x[0] for x in c["t"])):
+        if not replay_case(ctx, rng, c, k, "case:" + "".join(x[0] for x in c["t"]), canonical_first=quick):
             if len(ctx.violations) >= 5:
                 break
         n += 1
